@@ -267,6 +267,8 @@ func c15(c *Ctx) {
 					{"argument", "$.input.name.Equal(" + ref + ")"},
 					{"nested-group", "{$.input.name.Equal(\"a\"),{OR," + ref + ".Equal(\"b\")}}"},
 					// the field spelled in another letter case is no declared field: refused whatever the graph
+					{"head-marked", "$." + tgt + "?." + leaf},
+					{"argument-marked", "$.input.name.Equal($." + tgt + "?." + leaf + ")"},
 					{"case-variant", "$." + strings.ToUpper(tgt[:1]) + tgt[1:] + "." + leaf},
 					{"case-variant", "$.input.name.Equal($." + strings.ToUpper(tgt) + "." + leaf + ")"},
 					// arguments of calls made on a value without a schema (what ParseJSON / RemoveKeysBy* return)
